@@ -15,18 +15,18 @@ import (
 
 // WorkerOpts selects the slice of work one worker process performs.
 type WorkerOpts struct {
-	Prop     string
-	Tier     string
-	Seed     uint64
-	Shard    int
-	Of       int
-	From, To int // unit range [From,To); To<=0 means all
-	Careful  bool
-	Hashes   bool
-	WorkDir  string
+	Prop      string
+	Tier      string
+	Seed      uint64
+	Shard     int
+	Of        int
+	From, To  int // unit range [From,To); To<=0 means all
+	Careful   bool
+	Hashes    bool
+	WorkDir   string
 	ReplayDir string
-	Deadline time.Duration // wall-clock cap; 0 = none
-	MemLimit uint64
+	Deadline  time.Duration // wall-clock cap; 0 = none
+	MemLimit  uint64
 }
 
 // Msg is one line of the worker -> driver protocol.
